@@ -53,10 +53,14 @@ def hollow(rec):
     lc.advance = advance
 
     def start_bulk(resource, schema, pilots):
+        if resource in lc.verif_fail:
+            # the batch system / endpoint of this resource cannot be reached
+            raise RuntimeError('cannot launch on %s' % resource)
         with lc._lock:
             for p in pilots:
                 lc._pilots[p['uid']] = {'pilot': p, 'launcher': 'FAKE', 'job': None}
     lc._start_pilot_bulk = start_bulk
+    lc.verif_fail = set()
     return lc
 
 
@@ -74,7 +78,12 @@ def cases(draw):
                         draw(st.booleans())])          # a single uid is sent as a bare string
         else:
             ops.append(['kill_all'])
-    return {'kind': 'launch_cancel', 'n': n, 'ops': ops}
+    case = {'kind': 'launch_cancel', 'n': n, 'ops': ops}
+    if draw(st.integers(0, 2)) == 0:
+        # the pilots of a bulk go to several resources, the launch on some of them fails
+        case['res']  = [draw(st.integers(0, 2)) for _ in range(n)]
+        case['fail'] = draw(st.lists(st.integers(0, 2), min_size=1, max_size=2, unique=True))
+    return case
 
 
 def run(case):
@@ -84,6 +93,13 @@ def run(case):
     lc  = hollow(rec)
     n   = max(1, int(case.get('n') or 1))
     uid = lambda i: 'pilot.%04d' % (int(i) % n)         # noqa
+    RES = ['local.localhost', 'site.a', 'site.b']
+    rmap = [RES[int(x) % 3] for x in (case.get('res') or [])]
+    rmap = (rmap + [RES[0]] * n)[:n]
+    lc.verif_fail = set(RES[int(x) % 3] for x in (case.get('fail') or []))
+    res_of = {uid(i): rmap[i] for i in range(n)}
+    if lc.verif_fail:
+        res.label('launch_cancel:launch_fails_on_some_resource')
     seen, named = set(), set()       # handed to work(); named in a kill request of this pmgr
     order = []
 
@@ -95,7 +111,7 @@ def run(case):
                     if uid(i) not in seen:
                         seen.add(uid(i))
                         bulk.append({'uid': uid(i), 'type': 'pilot', 'state': rps.PMGR_LAUNCHING_PENDING,
-                                     'description': {'resource': 'local.localhost',
+                                     'description': {'resource': res_of[uid(i)],
                                                      'access_schema': 'local'}})
                 if bulk:
                     lc.work(bulk)
@@ -120,7 +136,7 @@ def run(case):
         res.fail(exc_sig('launcher_raised', e), repr(e))
         return res
 
-    early = False
+    early = mixed = False
     for i in range(n):
         u = uid(i)
         if u not in seen:
@@ -129,7 +145,14 @@ def run(case):
         final  = [s for s in states if s in rps.FINAL]
         first_kill = next((k for k, o in enumerate(order) if o[0] == 'kill' and u in o[1]), None)
         first_work = next((k for k, o in enumerate(order) if o[0] == 'work' and u in o[1]), None)
-        if u in named:
+        launch_fails = res_of[u] in lc.verif_fail
+        if launch_fails and not (u in named and first_kill is not None and first_work is not None
+                                 and first_kill < first_work):
+            # its launch failed (and no cancel request came first): FAILED, nothing else
+            if final != [rps.FAILED]:
+                res.fail('pilot_with_failed_launch_not_failed', '%s on %s: %s' % (u, res_of[u], states))
+            mixed = True
+        elif u in named:
             if first_kill is not None and first_work is not None and first_kill < first_work:
                 early = True
                 # canceled before the launcher saw it: never launched, ends CANCELED
@@ -143,8 +166,12 @@ def run(case):
                 res.fail('canceled_pilot_not_canceled:request_after_launch', '%s: %s' % (u, states))
         else:
             if final:
-                res.fail('pilot_ended_without_request', '%s: %s (requests %s)' % (u, states, order))
-    res.nontrivial = bool(named & seen) and len(seen) > len(named & seen) or early
+                res.fail('pilot_ended_without_request', '%s: %s (requests %s; launches fail on %s)'
+                         % (u, states, order, sorted(lc.verif_fail)))
+    mixed = mixed and any(res_of[u] not in lc.verif_fail for u in seen)
+    if mixed:
+        res.label('launch_cancel:failed_and_healthy_launches_together')
+    res.nontrivial = bool(named & seen) and len(seen) > len(named & seen) or early or mixed
     if early:
         res.label('launch_cancel:request_before_launch')
     if named & seen:
